@@ -116,10 +116,10 @@ def sstep (d : Defects) (s : Sys) : SOp → Sys × List (Ch × Room)
         let r4 := if d.inflightNotReleased then (r3.1, []) else unlockAll r3.1 c.inbox
         (r4.1, r2.2 ++ r3.2 ++ r4.2)
       else
-        -- fixed: close the receiver, release the grants still in flight
-        let s1 := setConn s i { c with closed := true, inbox := [] }
-        let r2 := svcStep s1 (.drop c.ch)
-        let r3 := if d.inflightNotReleased then (r2.1, []) else unlockAll r2.1 c.inbox
+        -- fixed: close the receiver, then release the grants still in flight
+        let r2 := svcStep s (.drop c.ch)
+        let s1 := setConn r2.1 i { c with closed := true, inbox := [] }
+        let r3 := if d.inflightNotReleased then (s1, []) else unlockAll s1 c.inbox
         (r3.1, r2.2 ++ r3.2)
     | none => (s, [])
   | .raw op => svcStep s op
